@@ -18,7 +18,7 @@ theorem initRoot_spec {cfg : Cfg} (hc : CfgOk cfg) (a : Alloc) (ha : a.fault = n
     TreeInv cfg (initRoot cfg a) ∧ toList (initRoot cfg a).root = [(absoluteMax, 0#64)] ∧
       Cons a (initRoot cfg a).a [] (pids (initRoot cfg a).root) ∧
       (initRoot cfg a).a.leafKeys = a.leafKeys + 1 ∧ countLeafKeys (initRoot cfg a).root = 1 ∧
-      (initRoot cfg a).root.pid = (newNode cfg a).1 := by
+      (initRoot cfg a).root.pid = (newNode cfg a).1 ∧ Geo cfg a (initRoot cfg a).a := by
   have hmk := hc.lt
   have hge := hc.ge4
   have hkp : setKeyPanic absoluteMax = false := by decide
@@ -45,7 +45,7 @@ theorem initRoot_spec {cfg : Cfg} (hc : CfgOk cfg) (a : Alloc) (ha : a.fault = n
   simp only [search, hidx, Bool.false_eq_true, if_false]
   rw [setEnts]
   simp only [hslot, if_true, hleaf, afterChild, hnf, Bool.false_eq_true, if_false, hnf2]
-  refine ⟨⟨rfl, ⟨⟨⟨⟨by decide, trivial⟩, ⟨by simp, rfl⟩, by simp; omega⟩, trivial⟩, ⟨by simp, rfl⟩, by simp; omega⟩, ?_⟩, ?_, ?_, ?_, ?_, rfl⟩
+  refine ⟨⟨rfl, ⟨⟨⟨⟨by decide, trivial⟩, ⟨by simp, rfl⟩, by simp; omega⟩, trivial⟩, ⟨by simp, rfl⟩, by simp; omega⟩, ?_⟩, ?_, ?_, ?_, ?_, rfl, ?_⟩
   · simp only [newNode_fault]; exact ha
   · simp [toList, toListEnts]
   · have h0 : Cons a a [] [] := Cons.same rfl rfl rfl _
@@ -57,6 +57,7 @@ theorem initRoot_spec {cfg : Cfg} (hc : CfgOk cfg) (a : Alloc) (ha : a.fault = n
   · simp only [newNode_leafKeys]; rfl
   · simp only [countLeafKeys, countLeafKeysEnts]
     rw [Node.numKeys_eq _ (by simp [Node.len])]; simp [Node.len]
+  · exact ((newNode_geo cfg a).trans (newNode_geo cfg _)).trans (Geo.same rfl rfl rfl)
 
 theorem bufAllocate_fault' (a : Alloc) (n : Nat) (h : a.fault = none) : (bufAllocate a n).fault = none := h
 
